@@ -500,7 +500,17 @@ func finalHandshake(w *World, x *vrt.Exec) {
 	}
 	cs, ss := w.endState[0], w.endState[1]
 	w.reached["end:"+cs+"/"+ss] = true
-	clean := w.faultsUsed == 0 && len(w.sc.StaleC2S) == 0 && len(w.sc.StaleS2C) == 0
+	// Stale packets other than SYNs are ignored by both handshakes, so a
+	// fault-free canonical run must still connect with them in the way.
+	staleSYN := false
+	for _, l := range [][][]byte{w.sc.StaleC2S, w.sc.StaleS2C} {
+		for _, b := range l {
+			if len(b) > 0 && b[0] == gbn.SYN {
+				staleSYN = true
+			}
+		}
+	}
+	clean := w.faultsUsed == 0 && !staleSYN
 	settled := w.endAt >= w.lastFaultAt+30*time.Second
 	if cs == "open" && ss == "open" {
 		finalAllDelivered(w, x)
@@ -508,7 +518,7 @@ func finalHandshake(w *World, x *vrt.Exec) {
 	}
 	if clean && w.canonical {
 		w.fail("handshake/clean-run-failed/"+cs+"/"+ss,
-			"no fault, no stale packet, canonical schedule, yet the run ended with client %s and server %s", cs, ss)
+			"no fault, no stale SYN, canonical schedule, yet the run ended with client %s and server %s", cs, ss)
 		return
 	}
 	if !settled {
